@@ -134,7 +134,7 @@ def at(o, k, i, W):
 
 
 def gen(hs, prefix='g16'):
-    wr, ct, table = [], [], []
+    wr, ct, table, orc = [], [], [], []
     for n, (name, plist) in enumerate(hs):
         sh = shape(name, plist)
         W, op = sh['W'], sh['op']
@@ -283,23 +283,75 @@ def gen(hs, prefix='g16'):
                 L.append('__CPROVER_assert(%s[j_%s] == o_%s, "%s.frame: operand %s unchanged (light)");' % (v, v, v, uid, v))
         cond = 'defined(VF_LIGHT)' + (' && defined(VF_SHAPE)' if special else '')
         ct.append('#if %s\nvoid hl_%s(void) {\n  %s\n  VF_SENTINEL; }\n#endif\n' % (cond, uid, '\n  '.join(L)))
+        # ---------- native scanning oracle (C++): the same reading, evaluated with independent reference arithmetic on the real routine
+        O = []
+        for i in order:
+            if i in special:
+                io_ar = re.match(r'SH_(STRIDE|IDX)_(IN|OUT)(\d)', special[i]).groups()
+                if io_ar[0] == 'STRIDE': O.append('const uint64_t p%d = SHP[shape].s%s%s;' % (i, 'o' if io_ar[1] == 'OUT' else 'i', io_ar[2]))
+                else: O.append('uint64_t *p%d = (uint64_t *)SHP[shape].x%s%s_%d;' % (i, 'o' if io_ar[1] == 'OUT' else 'i', io_ar[2], W))
+        for i in order:
+            if i not in special and '*' not in cdecl[i]: O.append('uint64_t p%d = R.next();' % i)
+        for v, e in fresh: O.append('std::vector<uint64_t> V%s(%s); for (auto &x_ : V%s) x_ = R.next(); uint64_t *%s = V%s.data();' % (v, e.replace('VMAX', 'std::max<uint64_t>'), v, v, v))
+        if aux:
+            b = ops[1]
+            for k in (range(W) if aux['kind'] == 'triple' else [0]):
+                X = (lambda j: 'p%d[%d]' % (aux['argi'] + j, k)) if aux['kind'] == 'triple' else (lambda j: 'p%d[%d]' % (aux['argi'], j))
+                Bk = lambda i_: at(b, k, i_, W)
+                O.append('%s = R.repr(ref_add(%s, %s)); %s = R.repr(ref_add(%s, %s)); %s = R.repr(ref_add(%s, %s));' % (X(0), Bk(0), Bk(1), X(1), Bk(0), Bk(2), X(2), Bk(1), Bk(2)))
+        for v, e in fresh: O.append('std::vector<uint64_t> O%s(V%s);' % (v, v))
+        O.append('%s(%s);' % (uid, ', '.join('p%d' % i for i in order)))
+        def oat(o, k, i_):
+            v, ix = where(o, k, i_, W)
+            return v if ix is None else 'O%s[%s]' % (v, ix)
+        for k in range(W):
+            if op == 'copy':
+                for i_ in range(3): O.append('CHK(%s == %s, %d, %d);' % (at(res, k, i_, W), oat(ops[0], k, i_), k, i_))
+                continue
+            a, b = ops
+            A = (lambda i_: oat(a, k, i_)) if a['arity'] == 3 else (lambda i_: oat(a, k, 0))
+            B = (lambda i_: oat(b, k, i_)) if b['arity'] == 3 else (lambda i_: oat(b, k, 0))
+            ar = (a['arity'], b['arity'])
+            Rr = lambda i_: '%s %% REF_P' % at(res, k, i_, W)
+            if op in ('add', 'sub'):
+                f = 'ref_add' if op == 'add' else 'ref_sub'
+                if ar == (3, 3): ex = ['%s(%s, %s)' % (f, A(i_), B(i_)) for i_ in range(3)]
+                elif ar == (3, 1): ex = ['%s(%s, %s)' % (f, A(0), B(0)), '%s %% REF_P' % A(1), '%s %% REF_P' % A(2)]
+                else: ex = ['%s(%s, %s)' % (f, A(0), B(0))] + [('%s %% REF_P' % B(i_)) if op == 'add' else 'ref_neg(%s)' % B(i_) for i_ in (1, 2)]
+            else:
+                if ar == (3, 3): ex = ['ref_f3mul(%d, %s)' % (i_, ', '.join([A(0), A(1), A(2), B(0), B(1), B(2)])) for i_ in range(3)]
+                elif ar == (3, 1): ex = ['ref_mul(%s, %s)' % (A(i_), B(0)) for i_ in range(3)]
+                else: ex = ['ref_mul(%s, %s)' % (A(0), B(i_)) for i_ in range(3)]
+            for i_ in range(3): O.append('CHK(%s == %s, %d, %d);' % (Rr(i_), ex[i_], k, i_))
+        resvars = set(where(res, k, i_, W)[0] for k in range(W) for i_ in range(3))
+        for v, e in fresh:
+            if v in resvars:
+                if res['kind'] != 'arr': continue
+                O.append('{ std::vector<char> des(V%s.size(), 0); %s for (size_t j = 0; j < V%s.size(); j++) FRAME(des[j] || V%s[j] == O%s[j], "%s", j); }' % (
+                    v, ' '.join('des[%s] = 1;' % where(res, k, i_, W)[1] for k in range(W) for i_ in range(3)), v, v, v, v))
+            else:
+                O.append('for (size_t j = 0; j < V%s.size(); j++) FRAME(V%s[j] == O%s[j], "%s", j);' % (v, v, v, v))
+        pro = 'void %s(%s);' % (uid, ', '.join(cpar[i] for i in order))
+        orc.append((uid, name.endswith('512'), pro, 'static int t_%s(int shape, vf_rng &R) { int bad = 0; const char *U = "%s";\n  %s\n  return bad; }' % (uid, uid, '\n  '.join(O))))
         has_idx = any(o.get('pos') == 'idx' for o in allobjs); has_stride = any(o.get('pos') == 'stride' for o in allobjs)
         nmul = op == 'mul'
         table.append(dict(uid=uid, name=name, params=plist, op=op, W=W, sig=sh['sig'], has_idx=has_idx, has_stride=has_stride,
                           ext_mul=(op == 'mul' and (ops[0]['arity'], ops[1]['arity']) == (3, 3))))
-    return wr, ct, table
+    return wr, ct, table, orc
 
 
 LARGE = 4099
-def shapes_inc():
-    def arr(xs): return '{' + ','.join(str(x) for x in xs) + '}'
-    out = []
-    shapes = {
+def arr(xs): return '{' + ','.join(str(x) for x in xs) + '}'
+def shape_table():
+    return {
      1: dict(doc='natural: ext stride 3, base stride 1, index lists reversed', s3=3, s1=1, so=3, i3=lambda W, k: 3 * (W - 1 - k), i1=lambda W, k: W - 1 - k, o3=lambda W, k: 3 * (W - 1 - k)),
      2: dict(doc='ext stride 1 (overlapping reads), base stride 3, output stride 5, index lists permuted and spread', s3=1, s1=3, so=5, i3=lambda W, k: 4 * ((5 * k + 3) % 11), i1=lambda W, k: (5 * k + 3) % 11, o3=lambda W, k: 4 * ((5 * k + 3) % 11)),
      3: dict(doc='input strides 0 (every element reads element 0), output stride 4, input index lists constant 5, output lists permuted', s3=0, s1=0, so=4, i3=lambda W, k: 5, i1=lambda W, k: 5, o3=lambda W, k: 3 * ((5 * k + 3) % 11)),
      4: dict(doc='large strides %d, index lists k*%d' % (LARGE, LARGE), s3=LARGE, s1=LARGE, so=LARGE, i3=lambda W, k: k * LARGE, i1=lambda W, k: k * LARGE, o3=lambda W, k: k * LARGE),
     }
+def shapes_inc():
+    out = []
+    shapes = shape_table()
     for n, s in shapes.items():
         out.append('%s VF_SHAPE == %d /* %s */' % ('#if' if n == 1 else '#elif', n, s['doc']))
         for W in (4, 8):
@@ -324,12 +376,29 @@ def shapes_inc():
 if __name__ == '__main__':
     hdr = open('/repo/src/' + HDR).read()
     hs = heads(hdr)
-    wr, ct, table = gen(hs)
+    wr, ct, table, orc = gen(hs)
     open(os.path.join(HERE, 'wrappers.cpp'), 'w').write('// GENERATED by props/C16/gen.py -- do not edit\n#include "goldilocks_base_field.hpp"\n#include "goldilocks_cubic_extension.hpp"\ntypedef Goldilocks::Element E;\ntypedef Goldilocks3::Element E3;\n' +
         '\n'.join(w if not t['name'].endswith('512') else '#ifdef __AVX512__\n%s\n#endif' % w for w, t in zip(wr, table)) + '\n')
     json.dump(table, open(os.path.join(HERE, 'table.json'), 'w'), indent=0)
     open(os.path.join(HERE, 'contracts_gen.inc'), 'w').write('/* GENERATED by props/C16/gen.py -- do not edit */\n' + '\n'.join(ct) + '\n')
     open(os.path.join(HERE, 'shapes.inc'), 'w').write(shapes_inc())
+    # native oracle tables
+    sh = shape_table()
+    L = ['// GENERATED by props/C16/gen.py -- do not edit', 'struct vf_shape { uint64_t si3, si1, so3; uint64_t xi3_4[4], xi1_4[4], xo3_4[4], xi3_8[8], xi1_8[8], xo3_8[8]; };',
+         'static vf_shape SHP[5] = { {},']
+    for n_ in (1, 2, 3, 4):
+        s_ = sh[n_]
+        L.append('  { %d, %d, %d, %s, %s, %s, %s, %s, %s },' % (s_['s3'], s_['s1'], s_['so'], arr(s_['i3'](4, k) for k in range(4)), arr(s_['i1'](4, k) for k in range(4)), arr(s_['o3'](4, k) for k in range(4)),
+                                                             arr(s_['i3'](8, k) for k in range(8)), arr(s_['i1'](8, k) for k in range(8)), arr(s_['o3'](8, k) for k in range(8))))
+    L.append('};')
+    L.append('extern "C" {')
+    for uid, is512, pro, body in orc: L.append(pro if not is512 else '#ifdef __AVX512__\n%s\n#endif' % pro)
+    L.append('}')
+    for uid, is512, pro, body in orc: L.append(body if not is512 else '#ifdef __AVX512__\n%s\n#endif' % body)
+    L.append('struct vf_entry { const char *uid; int (*fn)(int, vf_rng &); };\nstatic vf_entry TESTS[] = {')
+    for uid, is512, pro, body in orc: L.append(('  {"%s", t_%s},' % (uid, uid)) if not is512 else '#ifdef __AVX512__\n  {"%s", t_%s},\n#endif' % (uid, uid))
+    L.append('  {0, 0} };')
+    open(os.path.join(HERE, 'oracle_gen.inc'), 'w').write('\n'.join(L) + '\n')
     print(len(table), 'overloads')
     from collections import Counter
     print(Counter((t['op'], t['W']) for t in table))
